@@ -273,11 +273,20 @@ def run_case(case):
         for v in vs:
             v["case"] = case
         return vs
+    if "c01case" in case:
+        from checks import c01
+
+        _st, vs, _h = chain(C.save(c01.build_case(case["c01case"])), cycles, dict(c01.case_key(case["c01case"]), built="c01"))
+        for v in vs:
+            v["case"] = case
+        return vs
     if "fixture" in case:
         data = open(os.path.join(treeenv.FIXTURES, case["fixture"]), "rb").read()
+        key = {"file": case["fixture"]}
         if case.get("mutant"):
             data = dict(container_mutants(data))[case["mutant"]]
-        _st, vs, _h = chain(data, cycles, {"file": case["fixture"]})
+            key["mutant"] = mutant_class(case["mutant"])
+        _st, vs, _h = chain(data, cycles, key)
     else:
         import rv.api as rv
 
@@ -288,7 +297,7 @@ def run_case(case):
             data = C.save(p)
         else:
             data = C.save(rv.Synth(mod))
-        _st, vs, _h = chain(data, cycles, {"type": case["type"]})
+        _st, vs, _h = chain(data, cycles, {"type": case["type"], "ctx": case.get("ctx", "synth")})
     for v in vs:
         v["case"] = case
     return vs
@@ -324,6 +333,27 @@ def _task(t):
             if len(r["violations"]) < 40:
                 r["violations"] += vs
         r["sample"] = {"fixture": rel, "mutant": items[-1][0] if items else None}
+    elif kind == "c01cases":
+        # project-level initial states: every C01 case (header fields, names, patterns, and their k=2 combinations)
+        from checks import c01
+
+        _k, cycles, cases = t
+        for case in cases:
+            try:
+                data = C.save(c01.build_case(case))
+            except Exception:
+                C.count(r, "not-built")
+                continue
+            st, vs, h = chain(data, cycles, dict(c01.case_key(case), built="c01"))
+            for v in vs:
+                v["case"] = {"c01case": case, "cycles": cycles}
+            r["evals"] += 1
+            C.count(r, st.split(":")[0])
+            if h:
+                r["digests"].add(h)
+            if len(r["violations"]) < 20:
+                r["violations"] += vs
+        r["sample"] = {"c01case": cases[-1]} if cases else None
     elif kind == "refnested":
         _k, cycles, max_depth = t
         for label, data in reference_nested_files(max_depth):
@@ -471,6 +501,11 @@ def run(ctx):
         n = len(deviate.module_devs(k, ctx.seed, spikes="few", opt8="few")) + 1
         for lo in range(0, n, 60):
             tasks.append(("gen", k, ctx.seed, ("synth", "project") if ctx.thorough else ("synth",), cycles, lo, min(n, lo + 60)))
+    from checks import c01
+
+    c01cases = [c for c in c01.all_cases(ctx) if c["kind"] != "metamodules"]
+    for lo in range(0, len(c01cases), 200):
+        tasks.append(("c01cases", cycles, c01cases[lo:lo + 200]))
     tasks.append(("refnested", cycles, 5 if ctx.thorough else 3))
     tasks.append(("legacy", cycles))
     tasks.append(("emptyslots", cycles))
